@@ -80,8 +80,9 @@ class ModuleInfo:
 class PyRepo:
     """All non-test python modules of the package, parsed."""
 
-    def __init__(self, root=None):
+    def __init__(self, root=None, inline=False):
         self.root = root or REPO
+        self.inlined = []      # (file, caller, helper): calls of helpers the baseline does not have, folded back into the caller
         self.modules = {}
         self.funcs = {}
         self.digest = hashlib.sha256()
@@ -105,6 +106,9 @@ class PyRepo:
                 except SyntaxError as e:
                     raise AnalysisError("cannot parse %s: %s" % (rel, e))
                 self.digest.update(src.encode())
+                if inline and os.environ.get("VCHECK_NO_INLINE") != "1":
+                    from . import inline as _inline
+                    _inline.inline_new_helpers(tree, rel, self.inlined)
                 if os.environ.get("VCHECK_NO_RENAME") != "1":
                     from . import rename
                     rename.undo_renames(tree, rel, self.renames)
@@ -434,7 +438,7 @@ class Check:
         if self.unrecognised and not real_fail:
             u = self.unrecognised
             raise AnalysisError("%s: %d rule instance(s) could not recognise the construct they are about (no verdict): %s"
-                                % (self.pid, len(u), "; ".join("%s %s [%s] %s" % (x["rule"], x["key"], x["where"], x["msg"][:120]) for x in u[:4])))
+                                % (self.pid, len(u), "; ".join("%s %s [%s] %s" % (x["rule"], x["key"], x["where"], x["msg"][:120] + (" ..." + x["msg"][-260:] if len(x["msg"]) > 380 else x["msg"][120:])) for x in u[:4])))
         if self.only is None and n_obl + len(self.unrecognised) < self.floor:
             raise AnalysisError("%s: only %d rule instances evaluated, hand-confirmed floor is %d"
                                 % (self.pid, n_obl, self.floor))
